@@ -959,3 +959,183 @@ Section FailingReader.
       apply copy_buffer_failing in Ec. contradiction.
   Qed.
 End FailingReader.
+
+(* ------------------------------------------------------------------ a reader that fails or ends before Size bytes *)
+Section EarlyFailure.
+  Variable H : str -> str -> str.
+  Variable comb : bool.
+
+  Lemma script_read_avail evs k bs e evs' :
+    script_read comb evs k = ((bs, e), evs') -> quiet e -> avail evs = length bs + avail evs'.
+  Proof.
+    destruct evs as [|[d| |] r]; simpl; intros E Q.
+    - inversion E; subst. reflexivity.
+    - destruct (length d <=? k) eqn:L.
+      + destruct comb.
+        * destruct r as [|[d'| |] r']; inversion E; subst; simpl; auto.
+          destruct Q as [Q|Q]; discriminate.
+        * inversion E; subst. reflexivity.
+      + apply Nat.leb_gt in L. inversion E; subst. simpl.
+        rewrite firstn_length_le, skipn_length by lia. lia.
+    - inversion E; subst. reflexivity.
+    - inversion E; subst. destruct Q as [Q|Q]; discriminate.
+  Qed.
+
+  Lemma base_read_avail s k bs e s' :
+    base_read comb s k = ((bs, e), s') -> quiet e -> avail (b_evs s) = length bs + avail (b_evs s').
+  Proof.
+    unfold base_read. destruct s as [evs [n|]]; simpl.
+    - destruct (n <=? 0)%Z.
+      + intro E; inversion E; subst. reflexivity.
+      + destruct (script_read comb evs (clamp k n)) as [[bs0 e0] evs0] eqn:Es.
+        intro E; inversion E; subst; simpl. eapply script_read_avail; eauto.
+    - destruct (script_read comb evs k) as [[bs0 e0] evs0] eqn:Es.
+      intro E; inversion E; subst; simpl. eapply script_read_avail; eauto.
+  Qed.
+
+  Lemma read_full_tee_avail fuel : forall b h want acc acc' b' h',
+    read_full (tee_read comb) fuel (b, h) want acc = ((acc', Some EEof), (b', h')) ->
+    length acc + avail (b_evs b) = length acc' + avail (b_evs b').
+  Proof.
+    induction fuel as [|f IH]; intros b h want acc acc' b' h'; simpl.
+    - destruct (want <=? length acc); intro E; inversion E.
+    - destruct (want <=? length acc); [intro E; inversion E|].
+      unfold tee_read at 1. simpl.
+      destruct (base_read comb b (want - length acc)) as [[bs e0] b1] eqn:Eb.
+      destruct e0 as [e0|].
+      + destruct (want <=? length (acc ++ bs)); [intro E; inversion E|].
+        destruct ((0 <? length (acc ++ bs)) && is_eof e0); intro E; inversion E; subst.
+        rewrite app_length. erewrite (base_read_avail b); eauto; [lia|right; reflexivity].
+      + intro E. apply IH in E. rewrite <- E, app_length.
+        erewrite (base_read_avail b); eauto; [lia|left; reflexivity].
+  Qed.
+
+  (* while the VerifyReader is not in an error state: bytes handed out + bytes still
+     deliverable before the first failure = what the script could deliver at the start *)
+  Definition inv3 (A : nat) (v : vrd) (out : str) : Prop :=
+    v_verified v = false /\ (quiet (v_err v) -> length out + avail (b_evs (v_base v)) = A).
+
+  Lemma vr_read_inv3 A v out k bs e v' :
+    inv3 A v out -> vr_read comb v k = ((bs, e), v') -> inv3 A v' (out ++ bs).
+  Proof.
+    intros [I1 I2] E. unfold vr_read in E. destruct (v_err v) as [e0|] eqn:Ee.
+    - inversion E; subst. rewrite app_nil_r. split; auto. rewrite Ee. exact I2.
+    - destruct (v_N v <=? 0)%Z.
+      + inversion E; subst. rewrite app_nil_r. split; auto. simpl. intros _. apply I2. left; reflexivity.
+      + destruct (base_read comb (v_base v) (clamp k (v_N v))) as [[bs0 e1] b1] eqn:Eb.
+        destruct e1 as [e1|]; inversion E; subst; clear E; (split; [exact I1|]); simpl; rewrite app_length.
+        * intro Q. rewrite <- (I2 (or_introl eq_refl)). erewrite (base_read_avail (v_base v)); eauto; [lia|].
+          destruct e1; simpl in Q; try (destruct Q as [Q|Q]; discriminate). right; reflexivity.
+        * intros _. rewrite <- (I2 (or_introl eq_refl)). erewrite (base_read_avail (v_base v)); eauto; [lia|left; reflexivity].
+  Qed.
+
+  Lemma read_full_inv3 A fuel : forall v out want acc acc' e v',
+    inv3 A v out -> read_full (vr_read comb) fuel v want acc = ((acc', e), v') ->
+    exists d, acc' = acc ++ d /\ inv3 A v' (out ++ d).
+  Proof.
+    induction fuel as [|f IH]; intros v out want acc acc' e v' I; simpl.
+    - destruct (want <=? length acc); intro E; inversion E; subst; exists []; rewrite !app_nil_r; auto.
+    - destruct (want <=? length acc); [intro E; inversion E; subst; exists []; rewrite !app_nil_r; auto|].
+      destruct (vr_read comb v (want - length acc)) as [[bs e0] v1] eqn:Er.
+      pose proof (vr_read_inv3 _ _ _ _ _ _ _ I Er) as I1.
+      destruct e0 as [e0|].
+      + destruct (want <=? length (acc ++ bs)); [intro E; inversion E; subst; exists bs; auto|].
+        destruct ((0 <? length (acc ++ bs)) && is_eof e0); intro E; inversion E; subst; exists bs; auto.
+      + intro E. destruct (IH _ _ _ _ _ _ _ I1 E) as (d & E1 & E2).
+        exists (bs ++ d). subst acc'. rewrite !app_assoc. auto.
+  Qed.
+
+  Lemma copy_loop_inv3 A bufsz fuel : forall v out e out' v',
+    inv3 A v out -> copy_loop comb fuel v bufsz out = ((e, out'), v') -> inv3 A v' out'.
+  Proof.
+    induction fuel as [|f IH]; intros v out e out' v' I; simpl.
+    - intro E; inversion E; subst; auto.
+    - destruct (vr_read comb v bufsz) as [[bs e0] v1] eqn:Er.
+      pose proof (vr_read_inv3 _ _ _ _ _ _ _ I Er) as I1.
+      destruct e0 as [e0|]; [destruct e0; intro E; inversion E; subst; auto|apply IH; auto].
+  Qed.
+
+  Lemma vr_verify_inv3 A fuel dg v out v' :
+    inv3 A v out -> vr_verify H comb fuel dg v = (None, v') -> length out <= A.
+  Proof.
+    intros [I1 I2]. unfold vr_verify. rewrite I1.
+    destruct (ensure_eof comb fuel (v_base v, v_hashed v)) as [ok [b1 h1]] eqn:Ee.
+    assert (P : quiet (v_err v) -> length out <= A).
+    { intro Q. rewrite <- (I2 Q). lia. }
+    destruct (v_err v) as [e0|] eqn:Ee0.
+    - destruct e0; try discriminate. intros _. apply P. right; reflexivity.
+    - destruct (v_N v >? 0)%Z; [discriminate|]. intros _. apply P. left; reflexivity.
+  Qed.
+
+  Lemma new_vr_inv3 fixed src dg sz : inv3 (avail (b_evs src)) (new_vr_gen fixed src dg sz) [].
+  Proof.
+    unfold new_vr_gen. destruct (negb (valid_digest dg)); [split; auto|].
+    destruct (fixed && (sz <? 0)%Z); split; auto.
+  Qed.
+
+  Lemma read_all_early fixed fuel src dg sz buf v :
+    read_all H comb fixed fuel src dg sz = ((None, buf), v) -> (sz <= Z.of_nat (avail (b_evs src)))%Z.
+  Proof.
+    intro E. pose proof (read_all_sound H comb fixed fuel src dg sz buf v E) as ((A1 & _) & _).
+    revert E. unfold read_all. destruct (sz <? 0)%Z; [discriminate|].
+    pose proof (new_vr_inv3 fixed src dg sz) as I.
+    destruct (read_full (vr_read comb) fuel (new_vr fixed src dg sz) (Z.to_nat sz) []) as [[b0 e] v0] eqn:Er.
+    destruct (read_full_inv3 _ _ _ _ _ _ _ _ _ I Er) as (d & E1 & I0). simpl in E1, I0. subst b0.
+    destruct e as [e|]; [discriminate|].
+    destruct (vr_verify H comb fuel dg v0) as [r v1] eqn:Ev.
+    intro X; inversion X; subst. pose proof (vr_verify_inv3 _ _ _ _ _ _ I0 Ev). lia.
+  Qed.
+
+  Lemma copy_buffer_early fuel src bufsz dg sz out v :
+    copy_buffer H comb true fuel src bufsz dg sz = ((None, out), v) -> (sz <= Z.of_nat (avail (b_evs src)))%Z.
+  Proof.
+    intro E. pose proof (copy_buffer_sound H comb fuel src bufsz dg sz out v E) as ((A1 & _) & _).
+    revert E. unfold copy_buffer.
+    pose proof (new_vr_inv3 true src dg sz) as I.
+    destruct (copy_loop comb fuel (new_vr true src dg sz) bufsz []) as [[e o] v0] eqn:Ec.
+    pose proof (copy_loop_inv3 _ _ _ _ _ _ _ _ I Ec) as I0.
+    destruct e as [e|]; [discriminate|].
+    destruct (vr_verify H comb fuel dg v0) as [r v1] eqn:Ev.
+    intro X; inversion X; subst. pose proof (vr_verify_inv3 _ _ _ _ _ _ I0 Ev). lia.
+  Qed.
+
+  (* every push path, limited or not *)
+  Lemma early_failure_rejected fuel evs d :
+    (Z.of_nat (avail evs) < d_sz d)%Z ->
+    (forall fixed lim buf v, read_all H comb fixed fuel (mkBase evs lim) (d_dg d) (d_sz d) <> ((None, buf), v)) /\
+    (forall lim bufsz out v, copy_buffer H comb true fuel (mkBase evs lim) bufsz (d_dg d) (d_sz d) <> ((None, out), v)) /\
+    (forall fixed lim m e m', mem_push H comb fixed fuel m d (mkBase evs lim) = (e, m') -> e <> None /\ m' = m) /\
+    (forall lim s e s', oci_push H comb true fuel s d (mkBase evs lim) = (e, s') -> e <> None /\ s' = s) /\
+    (forall s name e s', file_push H comb true fuel s name d evs = (e, s') -> e <> None).
+  Proof.
+    intro A.
+    assert (RA : forall fixed lim buf v, read_all H comb fixed fuel (mkBase evs lim) (d_dg d) (d_sz d) <> ((None, buf), v)).
+    { intros fixed lim buf v E. apply read_all_early in E. simpl in E. lia. }
+    assert (CB : forall lim bufsz out v, copy_buffer H comb true fuel (mkBase evs lim) bufsz (d_dg d) (d_sz d) <> ((None, out), v)).
+    { intros lim bufsz out v E. apply copy_buffer_early in E. simpl in E. lia. }
+    assert (MP : forall fixed lim m e m', mem_push H comb fixed fuel m d (mkBase evs lim) = (e, m') -> e <> None /\ m' = m).
+    { intros fixed lim m e m'. unfold mem_push. destruct (mem_get m d).
+      - intro E; inversion E; subst. split; [discriminate|reflexivity].
+      - destruct (read_all H comb fixed fuel (mkBase evs lim) (d_dg d) (d_sz d)) as [[[e0|] buf] v] eqn:Er;
+          intro E; inversion E; subst.
+        + split; [discriminate|reflexivity].
+        + exfalso. eapply RA; eauto. }
+    split; [exact RA|]. split; [exact CB|]. split; [exact MP|]. split.
+    - intros lim s e s'. unfold oci_push. destruct (negb (valid_digest (d_dg d))).
+      { intro E; inversion E; subst. split; [discriminate|reflexivity]. }
+      destruct (oci_get s (d_dg d)).
+      + intro E; inversion E; subst. split; [discriminate|reflexivity].
+      + destruct (copy_buffer H comb true fuel (mkBase evs lim) oci_bufsz (d_dg d) (d_sz d)) as [[[e0|] out] v] eqn:Ec;
+          intro E; inversion E; subst.
+        * split; [discriminate|reflexivity].
+        * exfalso. eapply CB; eauto.
+    - intros s name e s'. unfold file_push. destruct name as [|c n0].
+      + destruct (limited_push _ _ _ _ _) as [e0 fb'] eqn:El. intro E; inversion E; subst.
+        apply limited_push_spec in El as [(-> & _)|(_ & El)]; [discriminate|].
+        apply MP in El. apply El.
+      + destruct (name_in (c :: n0) (f_names s)); [intro E; inversion E; discriminate|].
+        destruct (copy_buffer H comb true fuel (mkBase evs None) file_bufsz (d_dg d) (d_sz d)) as [[[e0|] out] v] eqn:Ec;
+          intro E; inversion E; subst; [discriminate|].
+        exfalso. eapply CB; eauto.
+  Qed.
+End EarlyFailure.
